@@ -57,4 +57,9 @@ Proof.
   unfold apply_new_vehicle_state. destruct (find vid (vehicles s)) as [v|] eqn:F; [|discriminate].
   intro H. apply modify_vehicle_spec in H. cbn in H. exists v. intuition.
 Qed.
+Lemma charge_unless_full_cases s vid sid cid s' : charge_unless_full env s vid sid cid = Ok s' -> s' = s \/ charge env s vid sid cid = Ok s'.
+Proof.
+  unfold charge_unless_full. destruct (find vid (vehicles s)) as [v|]; [|auto]. destruct (e_mech env (v_mech v)) as [m|]; [|auto].
+  destruct (mech_is_full m v); [intro H; inversion H; auto|auto].
+Qed.
 End S.
